@@ -48,6 +48,12 @@ func concrete(v AVal, unit int64, wrapBase *big.Int) (*big.Int, error) {
 		return new(big.Int).Add(two63, wrapBase), nil
 	case "u64max":
 		return new(big.Int).Set(u64max), nil
+	case "ovp": // 2^64 + 2*min: its low 64 bits are an in-range amount
+		x := new(big.Int).Add(two64, wrapBase)
+		return x.Add(x, wrapBase), nil
+	case "ovn": // -(2^64 + min): the low 64 bits of its absolute value are an in-range amount; ovp + ovn = min
+		x := new(big.Int).Add(two64, wrapBase)
+		return x.Neg(x), nil
 	case "over64":
 		return new(big.Int).Set(two64), nil
 	}
@@ -72,6 +78,10 @@ func abstract(x *big.Int, unit int64, wrapBase *big.Int) AVal {
 		return AVal{K: "u64max"}
 	case x.Cmp(two64) == 0:
 		return AVal{K: "over64"}
+	case wrapBase != nil && x.Cmp(new(big.Int).Add(two64, new(big.Int).Lsh(wrapBase, 1))) == 0:
+		return AVal{K: "ovp"}
+	case wrapBase != nil && x.Cmp(new(big.Int).Neg(new(big.Int).Add(two64, wrapBase))) == 0:
+		return AVal{K: "ovn"}
 	case x.Sign() < 0:
 		return AVal{K: "other"}
 	}
